@@ -53,9 +53,21 @@ class AstPrinter(AstVisitor):
         self.is_newline = True
         self.last_level = 0
         self.curr_line = 1 if update_ast_line_nos else None
+        # (start, end) offsets in self.result of the multi-line strings
+        self.multiline_spans: T.List[T.Tuple[int, int]] = []
 
     def post_process(self) -> None:
-        self.result = re.sub(r'\s+\n', '\n', self.result)
+        # Strip trailing white space, except inside multi-line strings
+        # where it is part of the value
+        parts: T.List[str] = []
+        pos = 0
+        for start, end in self.multiline_spans:
+            parts.append(re.sub(r'\s+\n', '\n', self.result[pos:start]))
+            parts.append(self.result[start:end])
+            pos = end
+        parts.append(re.sub(r'\s+\n', '\n', self.result[pos:]))
+        self.result = ''.join(parts)
+        self.multiline_spans = []
 
     def append(self, data: str, node: mparser.BaseNode) -> None:
         self.last_level = node.level
@@ -98,6 +110,7 @@ class AstPrinter(AstVisitor):
             self.append('f', node)
         if node.is_multiline:
             self.append("'''" + node.value + "'''", node)
+            self.multiline_spans.append((len(self.result) - len(node.value) - 6, len(self.result)))
         else:
             self.append("'" + self.escape(node.value) + "'", node)
         node.lineno = self.curr_line or node.lineno
